@@ -9,6 +9,8 @@ From RichModel Require Import Prelude Cells Segments Ratio Table SpecTable.
 From RichModel Require Frames Layout Wrap.
 From RichGen Require Import BoxChars.
 From RichProofs Require Import RatioP TableP LayoutP2 TableP2 TableP3 TableP4.
+(* T2 tie: ratio_reduce/ratio_distribute/_collapse_widths and the table padding arithmetic regenerated from /repo and proved equal to the hand model *)
+From RichProofs.bridge Require BridgeRatio BridgeMeasure.
 
 (* ================================================================= arithmetic kernels *)
 
